@@ -5,7 +5,6 @@ HERE = os.path.dirname(os.path.abspath(__file__))
 sys.path[:0] = [os.path.join(HERE, "vlib"), os.path.join(HERE, "props"), os.path.join(HERE, "mirsym")]
 
 NOT_APPLICABLE = {
-    'C06': 'deadlock freedom / refinement of a monitor + condvar + bounded-channel protocol across real threads: Kani has no threads and its compiler crashes on crossbeam; mirsym has no semantics for Condvar / thread wake-ups, and a hand-written protocol model would be a different technique. The simple trackers the batch trackers are to refine are decided one call at a time (C01-C04, C12); the store under command-granularity schedules under C05 / C10. See DESIGN.md C06.',
 }
 PENDING = 'check under construction (not yet registered)'
 
